@@ -146,6 +146,13 @@ func Yield(kind string, obj any, label string) {
 	<-t.resume
 }
 
+// At is a scheduling point placed right before a method call: X.f(a) is rewritten by the injector
+// into vsched.At(label, X).f(a).
+func At[T any](label string, x T) T {
+	Yield("call", nil, label)
+	return x
+}
+
 // Spawn starts f as a controlled thread; it parks at an initial yield ("start").
 func (c *Ctl) Spawn(name string, f func() string) *Thread {
 	t := &Thread{Name: name, resume: make(chan struct{})}
